@@ -3,6 +3,7 @@
 package dblookupext
 
 import (
+	"bytes"
 	"fmt"
 	"sync"
 
@@ -153,7 +154,11 @@ func (hr *historyRepository) recordMiniblock(blockHeaderHash []byte, blockHeader
 		return err
 	}
 
-	if hr.hasRecentlyInsertedMiniblockMetadata(miniblockHash, epoch) {
+	// the same miniblock might have been recorded before, within this block or within a block that was dropped in the meantime
+	previousMetadata, errPrevious := hr.getMiniblockMetadataByMiniblockHash(miniblockHash)
+	hasPreviousMetadata := errPrevious == nil && previousMetadata != nil
+	isRecordedForThisBlock := hasPreviousMetadata && previousMetadata.Epoch == epoch && bytes.Equal(previousMetadata.HeaderHash, blockHeaderHash)
+	if isRecordedForThisBlock && hr.hasRecentlyInsertedMiniblockMetadata(miniblockHash, epoch) {
 		return nil
 	}
 
@@ -171,6 +176,14 @@ func (hr *historyRepository) recordMiniblock(blockHeaderHash []byte, blockHeader
 		HeaderNonce:        blockHeader.GetNonce(),
 		SourceShardID:      miniblock.GetSenderShardID(),
 		DestinationShardID: miniblock.GetReceiverShardID(),
+	}
+
+	if hasPreviousMetadata {
+		// keep the notarization info already received for this miniblock
+		miniblockMetadata.NotarizedAtSourceInMetaNonce = previousMetadata.NotarizedAtSourceInMetaNonce
+		miniblockMetadata.NotarizedAtSourceInMetaHash = previousMetadata.NotarizedAtSourceInMetaHash
+		miniblockMetadata.NotarizedAtDestinationInMetaNonce = previousMetadata.NotarizedAtDestinationInMetaNonce
+		miniblockMetadata.NotarizedAtDestinationInMetaHash = previousMetadata.NotarizedAtDestinationInMetaHash
 	}
 
 	err = hr.putMiniblockMetadata(miniblockHash, miniblockMetadata)
